@@ -57,3 +57,15 @@ open Tins.Wire.App
 #print axioms dhcp_ip_roundtrip
 #print axioms dhcp_str_roundtrip
 #print axioms dhcp_first_match_wins
+-- C03 (TLV)
+#print axioms dhcpv6_parseOpts_optsBytes
+#print axioms dhcpv6_parseOpts_canon
+#print axioms dhcpv6_reparse_plain
+#print axioms dhcpv6_write_reparse_plain
+#print axioms dhcp_parseOpts_optsBytes
+#print axioms dhcp_parseOpts_canon
+#print axioms dhcp_reparse
+#print axioms dhcp_write_reparse
+#print axioms dhcpv6_parseOpts_wireSum
+#print axioms dhcpv6_addOption_inv
+#print axioms dhcpv6_removeOption_inv
